@@ -128,7 +128,7 @@ def FaultRoot (c : Cfg) (root : String) (t : PTree) : Prop :=
   oneof object over the same message;
 * a oneof object is `{}` (nothing set), or its one member with the `"!type"` member before it,
   after it, or **left out**;
-* array elements and map values in order;
+* array elements and map values in order; a j5 `Any` is `"!type"` and `"value"` in either order;
 * a scalar is **any** token `scalarReflectFromGo` maps to the stored value — the canonical one and
   the documented alternates (quoted / bare numbers, URL-safe or unpadded base64, RFC 3339 at any
   offset, float respellings; `Props/C03.lean` lists them as theorems); an enum is the short or the
@@ -139,6 +139,14 @@ The definitions recurse on the document only. -/
 /-- the token denotes the scalar value `vv` of kind `k` -/
 def scalarSpells (O : Oracle) (k : ScalarKind) (vv : PVal) (t : PTree) : Prop :=
   t ≠ .null ∧ ∃ tok, goTok t = some tok ∧ decodeScalar O k tok = .ok (some vv)
+
+/-- the members spell a j5 `Any` that holds `j5_json` only: `"!type"` and `"value"` in either
+order, the value any complete JSON value whose compact rendering is the stored `j5_json` -/
+def SpellsAny (pb : Bool) (vv : PVal) (ms : PMembers) : Prop :=
+  pb = false ∧ ∃ (tn : Bytes) (V : PTree) (l1 l2 l3 : Bytes),
+    vv = .anyJ5 tn [] V.render .none "" (.msg []) ∧ V.complete = true ∧ V.depth ≤ 10000 ∧
+    (ms = .cons (ascii "!type") l1 (.str tn l2) (.cons (ascii "value") l3 V (.nil .closed)) ∨
+     ms = .cons (ascii "value") l3 V (.cons (ascii "!type") l1 (.str tn l2) (.nil .closed)))
 
 mutual
 /-- the tree `t` spells the value `vv` of a field with schema `fld` -/
@@ -154,6 +162,7 @@ def SpellsV (c : Cfg) (fld : Field) (vv : PVal) : PTree → Prop
       | some (.oneof ops) => SpellsO c ops fs ms
       | _ => False
     | .map item, .map kvs => SpellsMap c item kvs ms
+    | .any pb, v => SpellsAny pb v ms
     | _, _ => False
   | .arr xs =>
     match fld, vv with
